@@ -17,6 +17,7 @@ func clone(b []byte) []byte { return append([]byte(nil), b...) }
 // H_C08_Cert: a parsed certificate does not change when the input buffer is overwritten.
 //
 //verif:props C08
+//verif:policies tight runtime
 //verif:witness accepted
 func H_C08_Cert() {
 	n := nd.IntRange(3, 9)
@@ -42,6 +43,7 @@ func H_C08_Cert() {
 // H_C08_KeyCert: a parsed key certificate does not change when the input buffer is overwritten.
 //
 //verif:props C08
+//verif:policies tight runtime
 //verif:witness accepted
 func H_C08_KeyCert() {
 	n := nd.IntRange(7, 11)
@@ -74,6 +76,7 @@ func kacObserve(k *keys_and_cert.KeysAndCert) (ser, pub, sig, pad []byte) {
 // H_C08_KeysAndCert: parsed keys-and-cert (all accepted type pairs) is unaffected by overwriting the input.
 //
 //verif:props C08
+//verif:policies tight runtime
 //verif:witness accepted
 func H_C08_KeysAndCert() {
 	in := kacInput()
@@ -94,6 +97,7 @@ func H_C08_KeysAndCert() {
 // H_C08_Destination: same for ReadDestination.
 //
 //verif:props C08
+//verif:policies tight runtime
 //verif:witness accepted
 func H_C08_Destination() {
 	in := kacInput()
@@ -112,6 +116,7 @@ func H_C08_Destination() {
 // H_C08_RouterIdentity: same for ReadRouterIdentity.
 //
 //verif:props C08
+//verif:policies tight runtime
 //verif:witness accepted
 func H_C08_RouterIdentity() {
 	in := kacInput()
